@@ -212,7 +212,10 @@ func warmUp() {
 }
 
 func runJob(job *Job) *Result {
-	if !warmed && !(job.Prop == "C18" && job.Rep >= 1 && job.Case != nil && job.Case.Conc != nil && job.Case.Conc.Cold) {
+	// No warm-up for a cold-start run of C18 and for the fresh-process repetition of C06: that
+	// repetition is about what the very first build of a process observes (and the warm-up - eight
+	// builds under the race detector - is most of what such a short-lived process would do).
+	if !warmed && !(job.Prop == "C18" && job.Rep >= 1 && job.Case != nil && job.Case.Conc != nil && job.Case.Conc.Cold) && !(job.Prop == "C06" && job.Rep >= 1) {
 		warmUp()
 	}
 	eng := engines[job.Prop]
